@@ -515,3 +515,17 @@ def check_requeue_whole(ctx, inst):
             r, ps = A.reach(b, edge_targets(b, sw, l), blocked_nodes=set(dr))
             bad = [x for x in b.return_nodes() if x in r]
             ctx.check(not bad, inst, "FOLLOW", b.path, "an allocation failure requeues the batch (drain of prepared_writes) before it returns", b.where(sw))
+
+
+def pending_queue_ops(body, names=("Extend::extend",)):
+    """call sites of `names` whose receiver is RetirementQueue.pending itself: through the field, or through a (possibly named)
+    guard obtained from `pending.lock()`"""
+    locks = [m.id for m in body.calls() if R.call_matches(m.ev, "Mutex::lock") and R.recv_expr(body, m).has_field("RetirementQueue", "pending")]
+    out = []
+    for n in body.calls():
+        if not any(R.call_matches(n.ev, x) for x in names) or not n.ev["args"]:
+            continue
+        e = R.arg_expr(body, n, 0)
+        if e.has_field("RetirementQueue", "pending") or any(("call", l) in A.origins(body, e) for l in locks):
+            out.append(n.id)
+    return out
